@@ -2,6 +2,7 @@
   C16 — f_apply calls the function once, with every argument in its place.  Any arity (structural induction).
 -/
 import MoreExec.Model.Apply
+import MoreExec.Gen.K18
 
 namespace MoreExec.Apply
 
@@ -170,5 +171,12 @@ theorem C16_failure_from_input (fnFut : Outcome Clo) (args : List (Option Key ×
 /-! Non-vacuity: `f_apply(f_return(fn), a, b, x=c, y=d)` -/
 example : fApply (.ok ()) [.ok 1, .ok 2] [(10, .ok 3), (11, .ok 4)] = .ok ([1, 2], [(10, 3), (11, 4)]) := by rfl
 example : fApply (.ok ()) [.ok 1, .err 7] [(10, .ok 3)] = .err 7 := by rfl
+
+/-- (the source of futures/apply.py, regenerated) every clause of `Model/Apply.lean` still transcribes the statement it was written
+from: `_wrap_args` lists positional arguments first, then keywords; `_wrapped_f_apply` calls `fn()` when nothing is left, otherwise takes
+the FIRST remaining argument, wraps the function in `fn_runner` (insert at index 0 of the positional list / set the keyword) by a
+flat-map over the argument future around a map over the function future, and recurses on the rest.  The model is hand-written: any
+rewrite of these statements, harmless or not, breaks this obligation and sends the check to its differential. -/
+theorem C16_source_facts : MoreExec.Gen.K18.allApplyFactsHold = true := by decide
 
 end MoreExec.Apply
